@@ -19,14 +19,30 @@ for sid in sorted(os.listdir(os.path.join(VERIF, "seeded"))):
     if not os.path.exists(mp):
         continue
     meta = json.load(open(mp))
+    # results of earlier sweeps are kept (meta.json) unless a newer log has a line for the same check
+    old = {}
+    for d in meta.get("detected_by", []):
+        m = re.match(r"^(C\d\d) quick \((.*)\)$", d)
+        if m:
+            old[m.group(1)] = (1, m.group(2).split(", "))
+    for chk, rc in meta.get("swept", {}).items():
+        old.setdefault(chk, (rc, []))
+    old.update(res.get(sid, {}))
     det = []
-    for chk, (rc, classes) in sorted(res.get(sid, {}).items()):
+    for chk, (rc, classes) in sorted(old.items()):
         if rc == 1:
             det.append("%s quick (%s)" % (chk, ", ".join(sorted(set(classes)))))
     meta["detected_by"] = det
-    meta["swept"] = {chk: rc for chk, (rc, _) in res.get(sid, {}).items()}
+    meta["swept"] = {chk: rc for chk, (rc, _) in old.items()}
     json.dump(meta, open(mp, "w"), indent=1)
-    rows.append((sid, meta["breaks"], meta["needs"], "; ".join(det) if det else ("NOT DETECTED" if res.get(sid) else "not swept")))
+    own = old.get(meta["breaks"])
+    if own and own[0] == 1:
+        cell = "; ".join(det)
+    elif old:
+        cell = "NOT DETECTED by %s" % meta["breaks"] + (" (detected by: %s)" % "; ".join(det) if det else "")
+    else:
+        cell = "not swept"
+    rows.append((sid, meta["breaks"], meta["needs"], cell))
 with open(os.path.join(VERIF, "seeded", "RESULTS.md"), "w") as f:
     f.write("# Seeded changes: outcome of `bin/seedsweep` (quick tier, VERIF_SEED=1)\n\n"
             "Each change was produced by an independent sub-agent from the text of one property only, confirmed with\n"
